@@ -2,7 +2,7 @@ use super::{
   hir_string_manager::StringManager,
   hir_type_conversion::{
     SynthesizedTypes, TypeLoweringManager, TypeSynthesizer, collect_used_generic_types,
-    type_application,
+    collect_used_generic_types_in_body, type_application,
   },
   mir_constant_param_elimination, mir_generics_specialization, mir_tail_recursion_rewrite,
   mir_type_deduplication,
@@ -1040,9 +1040,18 @@ impl<'a> ExpressionLoweringManager<'a> {
     };
     // The context may mention generic types that the lambda's own signature does not
     // (e.g. a captured `k: K` in a lambda of type `(V) -> V`).
+    // The body may mention further ones (e.g. `Vec.empty<T>()` in a lambda of type `() -> int`).
+    let mut generic_types_in_body = OrderSet::new();
+    collect_used_generic_types_in_body(
+      &lambda_stmts,
+      &lowered_e,
+      &self.type_lowering_manager.generic_types,
+      &mut generic_types_in_body,
+    );
     let type_parameters = type_parameters
       .into_iter()
       .chain(collect_used_generic_types(&type_, &self.type_lowering_manager.generic_types))
+      .chain(generic_types_in_body)
       .sorted()
       .dedup()
       .collect_vec();
